@@ -122,6 +122,14 @@ inline Verdict execute(const std::string& target, const Plan& plan, const std::s
     } else if (a.kind != "ok") return Verdict::fail(fmt("C11:refusal-without-line:%s:%s", target.c_str(), a.kind.c_str()), 0, a.what);
     if (!lens.empty() || err_end) {
       Outcome r = run_adjres(B, {}, false, html); st.add("parses");
+      // A stream ERROR is not a clean end of data: the line-wise readers drop the line in which it struck (getline
+      // fails although characters were extracted).  What was read is then the text up to the last complete line,
+      // and the verdict must be that of either text -- nothing else.
+      if (err_end && (r.kind != a.kind || (a.kind == "ok" && r.digest != a.digest))) {
+        size_t nl = B.rfind('\n');
+        Outcome r2 = run_adjres(nl == std::string::npos ? std::string() : B.substr(0, nl + 1), {}, false, html); st.add("parses");
+        if (r2.kind == a.kind && (a.kind != "ok" || r2.digest == a.digest)) { st.add("error_dropped_partial_line"); r = r2; }
+      }
       if (r.kind != a.kind) return Verdict::fail(fmt("C11:verdict-depends-on-chunking:%s:", target.c_str()) + slug(a.kind == "parser" ? a.what : r.what), 0,
                                                  fmt("chunked: %s (%s); one piece: %s (%s)", a.kind.c_str(), a.what.c_str(), r.kind.c_str(), r.what.c_str()));
       if (a.kind == "ok" && r.digest != a.digest) return Verdict::fail(fmt("C11:content-depends-on-chunking:%s", target.c_str()), 0, "same bytes, other chunk plan, different content read");
